@@ -5,6 +5,7 @@ import (
 	"testing"
 	"unicode/utf8"
 
+	"github.com/tsawler/tabula/model"
 	"github.com/tsawler/tabula/rag"
 )
 
@@ -61,5 +62,33 @@ func TestSplitHardMaxForwardSearch(t *testing.T) {
 				t.Fatalf("max %d: piece of %d bytes although every word is a break opportunity: %q", max, len(p), p)
 			}
 		}
+	}
+}
+
+// TestSentenceSplitOneLetterSentence: a one-capital "sentence" right after a sentence end ("... the U.S.A. last year")
+// made the sentence splitter look three bytes behind in a two-byte buffer (fixed: index out of range [-1]).
+func TestSentenceSplitOneLetterSentence(t *testing.T) {
+	defer func() {
+		if r := recover(); r != nil {
+			t.Fatalf("panic: %v", r)
+		}
+	}()
+	body := strings.Repeat("This sentence fills the paragraph up. ", 80) + "It was made in the U.S.A. last year. Hi.A. b."
+	doc := model.NewDocument()
+	pg := model.NewPage(612, 792)
+	pg.Layout = &model.PageLayout{Paragraphs: []model.ParagraphInfo{{Text: body}}}
+	doc.AddPage(pg)
+	cfg := rag.DefaultChunkerConfig()
+	cfg.MaxChunkSize = 400
+	res, err := rag.NewChunkerWithConfig(cfg).Chunk(doc)
+	if err != nil {
+		t.Fatal(err)
+	}
+	var all []string
+	for _, c := range res.Chunks {
+		all = append(all, c.Text)
+	}
+	if !strings.Contains(strings.Join(all, " "), "last year") {
+		t.Fatalf("text lost: %q", all)
 	}
 }
